@@ -191,6 +191,73 @@ def adaptDelta (cur : PreConf) (ident : String) (txs : List WireTx) : Except Err
           txCount := cur.txCount + txs.length
           eventCount := cur.eventCount + (txs.map (·.rcpt.events)).foldl (· + ·) 0 }
 
+/-! ## the wire shape the adapters index into
+
+`starknet.PreConfirmedBlock` / `PreConfirmedDeltaUpdate` carry three parallel slices. The adapters
+loop over the TRANSACTIONS and index the other two (`response.TransactionStateDiffs[i]`,
+`response.Receipts[i].Events`) without checking lengths or nil elements: only the feeder client's
+`PreConfirmedUpdateEnvelope.Validate` does. `WireTx` above is the well-shaped case. -/
+
+structure RawUpdate where
+  txs      : List (Tx × Bool)        -- transaction, `bad`
+  receipts : List (Option Rcpt)      -- `nil` elements possible
+  diffs    : List (Option Diff)
+
+inductive RawOutcome
+  | ok (ws : List WireTx)
+  | adaptError                        -- AdaptTransaction failed before anything else was touched
+  | panics                            -- index out of range / nil dereference in the writer goroutine
+
+/-- the per-index accesses of `AdaptPreConfirmedBlock` / `AdaptPreConfirmedWithDelta`, in order:
+`AdaptTransaction(txs[i])`, `AdaptStateDiff(diffs[i])`, `receipts[i]` and `.Events` of it -/
+def zipRaw (u : RawUpdate) : RawOutcome :=
+  go u.txs 0 []
+where
+  go : List (Tx × Bool) → Nat → List WireTx → RawOutcome
+    | [], _, acc => .ok acc.reverse
+    | (tx, bad) :: rest, i, acc =>
+      if bad then .adaptError
+      else match u.diffs[i]? with
+        | some (some d) =>
+          match u.receipts[i]? with
+          | some (some rc) => go rest (i + 1) ({ tx := tx, bad := false, rcpt := rc, diff := d } :: acc)
+          | _ => .panics
+        | _ => .panics
+
+/-! ## sequencer mode: the view over the block under construction
+
+`Sequencer.PreConfirmedChain` returns `NewChain(s.buildState.PreConfirmed)`: the view's single
+node points at the builder's live entry, which `updatePreconfirmedBlock` updates IN PLACE for every
+executed batch. A mutable cell per entry is all that is needed to say it. -/
+
+/-- `updatePreconfirmedBlock(preconfirmed, receipts, transactions, stateDiffs)` on the entry value -/
+def runBatch (e : PreConf) (ws : List WireTx) : PreConf :=
+  { e with
+    receipts := e.receipts ++ ws.map (·.rcpt)
+    txDiffs := e.txDiffs ++ ws.map (·.diff)
+    txs := e.txs ++ ws.map (·.tx)
+    txCount := e.txCount + ws.length
+    eventCount := e.eventCount + (ws.map (·.rcpt.events)).foldl (· + ·) 0
+    diff := (ws.map (·.diff)).foldl Diff.merge e.diff }
+
+/-- the builder's step on the memory of entries: the live cell is overwritten -/
+def runBatchInPlace (cells : List PreConf) (live : Nat) (ws : List WireTx) : List PreConf :=
+  match cells[live]? with
+  | some e => cells.set live (runBatch e ws)
+  | none => cells
+
+/-- what a reader holding the entry at address `a` sees -/
+def readCell (cells : List PreConf) (a : Nat) : Option PreConf := cells[a]?
+
+/-- `Sequencer.PreConfirmedChain` as it is: the view's entry is the live cell -/
+def seqViewLive (_cells : List PreConf) (live : Nat) : Nat := live
+
+/-- … with a snapshot (`buildState.Clone()`): the view's entry is a fresh cell -/
+def seqViewSnapshot (cells : List PreConf) (live : Nat) : List PreConf × Nat :=
+  match cells[live]? with
+  | some e => (cells ++ [e], cells.length)
+  | none => (cells, live)
+
 /-! ## `ChainReader` and `ChainStorage` -/
 
 structure Reader where
